@@ -181,7 +181,7 @@ def gen_bench(repo):
     strip_g = _strip3([nx() for _ in range(6)], "gate pass"); split_g = nx()
     buff_names = nx(); buff_to = nx()
     parity = nx()
-    par0, par_test, par1 = nx(), nx(), nx()
+    par_test, par0, par1 = nx(), nx(), nx()   # IfExp is visited test, body, orelse
     dff_regex = nx()
     ty_qbuf = nx()
     strip_d = _strip3([nx() for _ in range(6)], "dff pass")
